@@ -190,7 +190,11 @@ class Cluster(object):
             # if TSself != TSother:
             #     R0 = TSother[1].R
             #     if TSself != (TSother[1] - R0, TSother[0] - R0):
-            if not self.istransition(*other.transitionstate()):
+            # the endpoints must match with the *same* translation that matches all the sites (positions relative
+            # to the centre of each cluster); the reversed order only counts for undirected transition states
+            s0, s1 = [(cs.ci, self.__shift_pos__(cs)) for cs in self.sites[:2]]
+            o0, o1 = [(cs.ci, other.__shift_pos__(cs)) for cs in other.sites[:2]]
+            if (s0, s1) != (o0, o1) and (self.__vacancy__ or (s0, s1) != (o1, o0)):
                 return False
         # with the new indexing, I don't believe this check is required:
         # elif self.__vacancy__:
